@@ -10,6 +10,7 @@
 
 mod util;
 mod bitmap;
+mod volatile;
 
 use std::io::{BufRead, BufWriter, Write};
 
@@ -26,6 +27,7 @@ fn main() {
     let mut out = BufWriter::new(std::fs::File::create(&args[3]).expect("create out"));
     let mut exec: Box<dyn util::Exec> = match module {
         "bitmap" => Box::new(bitmap::BitmapExec::default()),
+        "volatile" => Box::new(volatile::VolExec::default()),
         _ => {
             eprintln!("unknown module {module}");
             std::process::exit(2);
